@@ -2367,6 +2367,8 @@ pub fn compile<I: BufRead, O: Write>(
         let mut s = i.splitn(2, '=');
         let def = s.next().unwrap();
         let value = s.next().unwrap_or("1");
+        // Like #define, expand the macros defined so far in the value
+        let value = context.replace_all(value);
         context.define(def, value);
     }
 
